@@ -104,6 +104,14 @@ AsUint(v, maxBytes) ==
   ELSE IF maxBytes > 0 /\ Len(v.b) > maxBytes THEN No
   ELSE IF Len(v.b) > 0 /\ v.b[1] = 0 THEN No
   ELSE Yes(v.b)
+\* fixed-size byte array target of n bytes
+AsArray(v, n) == IF v.k = "str" /\ Len(v.b) = n THEN Yes(v.b) ELSE No
+\* struct target {A uint64; B []byte}: a list of exactly these two
+NoPair == [ok |-> FALSE, a |-> <<>>, b |-> <<>>]
+AsPair(v) == IF v.k # "list" THEN NoPair
+             ELSE IF Len(v.e) # 2 THEN NoPair
+             ELSE IF ~AsUint(v.e[1], 8).ok \/ v.e[2].k # "str" THEN NoPair
+             ELSE [ok |-> TRUE, a |-> v.e[1].b, b |-> v.e[2].b]
 \* boolean: the integers 0 and 1
 AsBool(v) == LET u == AsUint(v, 1) IN IF u.ok /\ (u.b = <<>> \/ u.b = <<1>>) THEN u ELSE No
 \* the number behind an integer view when it fits three bytes, else -1
